@@ -360,6 +360,15 @@ def r5_interning(rep, ctx):
             ok = all((x[0] == "call" and x[1] == ("name", "Quantity")) or cache_hit_term(x) for x in alternatives(t))
             rep.check(ok, "C07.R5", key, "returns the object that was just stored in the intern table",
                       "may return an object that was not stored in the intern table (%s)" % show(t, 160), node=st, fn=fn)
+        elif isinstance(v, ast.Call) and isinstance(v.func, ast.Name) and v.func.id == fn.name:
+            # the function delegates to itself with a simplified request: every part of the request must be handed on
+            from ..facts import bind_args
+            b_ = bind_args(v, fn, skip_self=False)
+            cap = b_.get("unknown_unit_caption")
+            full = all(k_ in b_ for k_ in ("unit", "category")) and cap is not None and res.term(cap) == ("param", fn.params.index("unknown_unit_caption"), "unknown_unit_caption")
+            rep.check(full, "C07.R5", key, "delegates to itself with the (simplified) unit and category and the same caption",
+                      "`%s` re-enters ObtainQuantity without handing on %s: the request resolves to a quantity that lacks it (captioned and caption-less requests share one object; a pickled quantity with a caption comes back without it)"
+                      % (norm(ast.unparse(v))[:80], [k_ for k_ in ("unit", "category", "unknown_unit_caption") if k_ not in b_] or ["the caller's caption"]), node=st, fn=fn)
         else:
             rep.bad("C07.R5", key, "returns something that is neither a cache hit nor a freshly interned object", node=st, fn=fn)
 
